@@ -343,6 +343,28 @@ class MTVRPEnv(RL4COEnvBase):
             curr_node = next_node
             curr_time[curr_node == 0] = 0.0  # reset time for depot
 
+        # The last route does not end with a depot visit: unless routes are open, the way back
+        # to the depot must respect the distance limit and the depot's time window as well
+        closed = ~td["open_route"].squeeze(-1)
+        dist_back = get_distance(gather_by_index(td["locs"], curr_node), locs[..., 0, :])
+        assert torch.all(
+            (curr_length + dist_back) * closed <= td["distance_limit"].squeeze(-1)
+        ), "Route exceeds distance limit"
+        assert torch.all(
+            (curr_time + dist_back) * closed <= td["time_windows"][..., 0, 1]
+        ), "vehicle cannot get back to depot in time"
+
+        # Backhaul constraint (B): within a route all linehauls are served before any backhaul
+        carrying_backhaul = torch.zeros(batch_size, dtype=torch.bool, device=td.device)
+        for ii in range(actions.size(1)):
+            next_node = actions[:, ii]
+            is_linehaul = gather_by_index(td["demand_linehaul"], next_node) > 0
+            is_backhaul = gather_by_index(td["demand_backhaul"], next_node) > 0
+            assert not torch.any(
+                carrying_backhaul & is_linehaul
+            ), "Linehaul served after a backhaul in the same route"
+            carrying_backhaul = (carrying_backhaul | is_backhaul) & (next_node != 0)
+
         # Demand constraints (C) and (B)
         # linehauls are the same as backhauls but with a different feature
         def _check_c1(feature="demand_linehaul"):
